@@ -40,7 +40,7 @@ def required_cells(tier):
             'cli:exit0', 'cli:exit1', 'cli:list', 'mix:only-skipped', 'mix:last-fails', 'mix:disabled+failing',
             'printed-failed-list:empty', 'printed-failed-list:one', 'printed-failed-list:several',
             'module-import-fails', 'cmd:named-one-of-several-in-a-docstring:0',
-            'cmd:named-one-of-several-in-a-docstring:1'] + ['zero-arg:' + ' '.join(r[0]) for r in ZERO_ARG_RUNS])
+            'cmd:named-one-of-several-in-a-docstring:1', 'module-holds-a-left-out-block'] + ['zero-arg:' + ' '.join(r[0]) for r in ZERO_ARG_RUNS])
 
 
 def read_marks(path):
@@ -286,6 +286,8 @@ def check_module(ctx, idx, seed, cli=False):
                 ctx.cell('outcome:' + t['kind'])
             ctx.cell('style:' + style)
             ctx.cell('verbose:%d' % verbose)
+            if om.left_out_block:
+                ctx.cell('module-holds-a-left-out-block')
             if enabled and all(t['outcome'] == 'skipped' for t in enabled):
                 ctx.cell('mix:only-skipped')
             if enabled and enabled[-1]['outcome'] == 'failed':
